@@ -500,6 +500,22 @@ class RealIR:
         self.by_path = {r.reference.path: r for r in self.p.results}
         self.defs = set((doc.get("definitions") or {}).keys())
 
+    def reuse_merges(self) -> list[tuple[str, str]]:
+        """run the real `Parser.__reuse_model` on the parsed models and report which definition was turned into
+        an alias (`class B(A): pass`) of which: [(B, A)] — only pairs of named definitions"""
+        self.p.reuse_model = True
+        models = list(self.p.results)
+        self.p._Parser__reuse_model(models, [])
+        out = []
+        for m in models:
+            path = m.reference.path
+            if path.endswith("/reuse") and m.base_classes and m.base_classes[0].reference is not None:
+                b = self.def_name(path[: -len("/reuse")])
+                a = self.def_name(m.base_classes[0].reference.path)
+                if a is not None and b is not None:
+                    out.append((b, a))
+        return out
+
     def def_name(self, path: str) -> str | None:
         if "#/definitions/" in path:
             tail = path.split("#/definitions/", 1)[1]
